@@ -24,10 +24,11 @@ CLAIMED = {
    note=BASE_NOTE + "the three CRC-identified known-bad profiles (3 KB each) are covered by the table-lookup correspondence only.",
    technique="Coq proof (exhaustive case analysis of the decision function) + regenerated constants + model replay + declarative oracle"),
  "C15": dict(
-   text='Machine-checked (Properties/C15.v): the scaling function equals round(v/257) on all 16-bit values, that is the unique nearest 8-bit value (no ties), the colour key is rounded the same way, every scaled pixel means exactly the rounded samples under the rounded key, and IMAGE LEVEL: the scaled image means the input picture with every sample and the key rounded, for every size, interlaced or not. The Rust f32 expression is tied to the integer model EXHAUSTIVELY (65536 values) and in every channel position of every 16-bit colour type on each run, plus images whose samples share a byte pattern (whole-image shortcuts); end-to-end --scale16 outputs are decoded by the extracted specification.',
+   text='Machine-checked (Properties/C15.v): the scaling function equals round(v/257) on all 16-bit values, that is the unique nearest 8-bit value (no ties), the colour key is rounded the same way, every scaled pixel means exactly the rounded samples under the rounded key, and IMAGE LEVEL: the scaled image means the input picture with every sample and the key rounded, for every size, interlaced or not. The Rust f32 expression is tied to the integer model EXHAUSTIVELY (65536 values) and in every channel position of every 16-bit colour type on each run, plus images whose samples share a byte pattern (whole-image shortcuts); end-to-end --scale16 outputs are decoded by the extracted specification.'
+        ' PICTURE / PIPELINE / FILE: the scaled meaning is a per-pixel function (scaled_px) of the input picture and the colour key alone (C15_scaled_is_picture_map); with scaling requested, bit-depth reductions enabled and the clock not expired at the 16->8 step, the baseline and every candidate handed to the evaluator, for all other options and clock answers, are at most 8 bits deep and mean the rounded picture (C15_pipeline_scaled, C15_emitted_scaled); the file returned by optimize_from_memory for a valid 16-bit non-animated input decodes under the specification either to the input picture (only when nothing was emitted or the input is returned) or, with an at-most-8-bit header, to the rounded picture (C15_file_to_file); for inputs that are not 16-bit optimize_from_memory is the same function whatever scale_16 says (C15_not_16_bit_same).',
    design="DESIGN.md §3 C15",
    note=BASE_NOTE + 'f32 arithmetic of rustc is not modelled in Flocq; it is compared exhaustively instead. Scaling belongs to the bit-depth class: with bit-depth changes disabled (C08) nothing is scaled.',
-   technique='Coq proof (lia over all 16-bit values; image-level lift) + exhaustive correspondence + spec oracle'),
+   technique='Coq proof (lia over all 16-bit values; image-level lift; pipeline invariant; file-to-file) + exhaustive correspondence + spec oracle'),
  "C02": dict(
    text="Machine-checked (Properties/C02.v): `output` is the signature followed by the serialisation of an explicit chunk sequence; the specification's strict container parser (lengths, CRC over type+data, IEND last, nothing after) "
         "accepts it and reads back exactly that sequence, for every PngData with well-formed chunk names; the sequence is IHDR(13 bytes from the header) … single IDAT … IEND with PLTE/tRNS synthesised from the header before IDAT; CRC-32 fits 32 bits; "
@@ -63,6 +64,9 @@ CLAIMED = {
  "C07": dict(
    text="Machine-checked (Properties/C07.v): the policy function is the documented one (the `safe` list equals the list parsed from MANUAL.txt on this run, so the theorem is re-checked against the current source); picture-defining chunks are dispatched before the policy is consulted; "
         "a stripped chunk leaves no trace in the parser state; a kept chunk is recorded with identical name and payload; the C2PA rule; postprocess_chunks is exactly the documented conditional filter (nothing invented, order kept). "
+        "FILE TO FILE: the ancillary list from_slice builds is a closed formula over the specification's chunk list of the input (kept chunks before the image data, marker, kept chunks after, each once and in file order; nothing invented), "
+        "postprocess_chunks is a filter acting on each side of the image data, the chunk sequence written is explicit (C07_written_closed_form), and the whole call is their composition (C07_file_chunk_flow); "
+        "order: each of the two classes written before IDAT keeps its order (C07_order_partial); 'same relative order' across the classes is refuted with the F9 witness (C07_order_refuted). "
         "End to end: model replay on chunk-rich inputs x all policy kinds, and a declarative oracle computing the expected ancillary list of the output.",
    design="DESIGN.md §3 C07",
    note=BASE_NOTE + "KNOWN FINDING F9 (listed in known_findings.json): bKGD/hIST that precede other pre-IDAT ancillary chunks are re-emitted after them. When the result is not smaller the input is returned unchanged (C04) and the policy is not applied.",
